@@ -143,9 +143,16 @@ class _DefaultTypesDeprecatingMetaClass(type):
 
 
 def _id_of(schema):
-    if schema is True or schema is False:
+    # keywords next to ``$ref`` (the id included) are ignored
+    if schema is True or schema is False or u"$ref" in schema:
         return u""
     return schema.get(u"$id", u"")
+
+
+def _legacy_id_of(schema):
+    if u"$ref" in schema:
+        return u""
+    return schema.get(u"id", u"")
 
 
 def create(
@@ -460,7 +467,7 @@ Draft3Validator = create(
     },
     type_checker=_types.draft3_type_checker,
     version="draft3",
-    id_of=lambda schema: schema.get(u"id", ""),
+    id_of=_legacy_id_of,
 )
 
 Draft4Validator = create(
@@ -495,7 +502,7 @@ Draft4Validator = create(
     },
     type_checker=_types.draft4_type_checker,
     version="draft4",
-    id_of=lambda schema: schema.get(u"id", ""),
+    id_of=_legacy_id_of,
 )
 
 Draft6Validator = create(
